@@ -293,6 +293,7 @@ func runC37(r *core.Run, forged bool) {
 				}
 			}
 		}
+		w.sample.Accepted, w.sample.Refused = accepted, rejected
 		r.Nontrivial = accepted > 0 && rejected > 0
 	})
 }
